@@ -133,7 +133,10 @@ func (c *Content) WithFileInfoDefaults(umask fs.FileMode, mtime time.Time) *Cont
 	if cc.FileInfo.Group == "" {
 		cc.FileInfo.Group = "root"
 	}
-	if (cc.Type == TypeDir || cc.Type == TypeImplicitDir) && cc.FileInfo.Mode == 0 {
+	isDir := cc.Type == TypeDir || cc.Type == TypeImplicitDir
+	// a directory in the build environment may be given as source to copy the
+	// mode from; only without one the default applies right away
+	if isDir && cc.FileInfo.Mode == 0 && cc.Source == "" {
 		cc.FileInfo.Mode = 0o755
 	}
 	if cc.FileInfo.MTime.IsZero() {
@@ -143,7 +146,7 @@ func (c *Content) WithFileInfoDefaults(umask fs.FileMode, mtime time.Time) *Cont
 	// determine if we still need info
 	fileInfoAlreadyComplete := (!cc.FileInfo.MTime.IsZero() &&
 		cc.FileInfo.Mode != 0 &&
-		(cc.FileInfo.Size != 0 || (cc.Type == TypeDir || cc.Type == TypeImplicitDir)))
+		(cc.FileInfo.Size != 0 || isDir))
 
 	// only stat source when we actually need more information
 	if cc.Source != "" && !fileInfoAlreadyComplete {
@@ -153,10 +156,18 @@ func (c *Content) WithFileInfoDefaults(umask fs.FileMode, mtime time.Time) *Cont
 				cc.FileInfo.MTime = info.ModTime()
 			}
 			if cc.FileInfo.Mode == 0 {
-				cc.FileInfo.Mode = unixSpecialBits(info.Mode()) &^ umask
+				mode := info.Mode()
+				if isDir {
+					mode &^= fs.ModeDir
+				}
+				cc.FileInfo.Mode = unixSpecialBits(mode) &^ umask
 			}
 			cc.FileInfo.Size = info.Size()
 		}
+	}
+
+	if isDir && cc.FileInfo.Mode == 0 {
+		cc.FileInfo.Mode = 0o755
 	}
 
 	if cc.FileInfo.MTime.IsZero() {
